@@ -109,6 +109,8 @@ def gen_extra(ctx):
             seen.add(k)
             out.append(c)
 
+    for c, _asis, _ideal in PINNED:
+        add(c)
     # --- size families ------------------------------------------------------------------------------------------------
     bases = [(4000, 4000), (4000, 1), (1, 4000), (1000, 1), (1, 1000), (4000, 3), (3, 4000), (1920, 1080),
              (1080, 1920), (640, 480), (3999, 4000), (255, 257), (49, 49), (98, 98), (103, 107), (1, 1), (2, 1),
@@ -280,6 +282,15 @@ def rect_of(x, w, h):
     return (min(r0, h), min(r1 + 1, h), min(c0, w), min(c1 + 1, w))
 
 
+def inner_rect_of(x, w, h):
+    """The pixels that lie entirely within the real-valued rectangle [w*x0, w*x1] x [h*y0, h*y1] (these must be drawn
+    whatever the rounding convention of the edges)."""
+    x0, y0, bw, bh = x['b']
+    c0, c1 = -((-w * x0) // DEN), (w * (x0 + bw)) // DEN
+    r0, r1 = -((-h * y0) // DEN), (h * (y0 + bh)) // DEN
+    return (min(r0, h), min(max(r1, r0), h), min(c0, w), min(max(c1, c0), w))
+
+
 def box_colour(fmt, col):
     k = PALETTE_RGB[col]
     if fmt == 'RGB':
@@ -357,8 +368,8 @@ class Real:
         if ro:
             img.flags.writeable = False
         frame = self.Frame(img) if fmt == 'GRAY' else self.Frame(img, format=fmt)
-        xforms = self.parse(text)
         try:
+            xforms = self.parse(text)
             out = self.util.execute_xforms(self.adict(topic='main', frame=frame, xforms=xforms)).frame
             return ('ok', out.image, out.format)
         except Exception as e:        # an exception of the code under test is an observation, judged by the property
@@ -393,11 +404,48 @@ class Real:
         rd.deque = deque()                    # the reader keeps only the newest frame (maxlen=1); keep all of them
         return rd
 
+    def video_run_threaded(self, option, value, image, bgr=True, timeout=20.0):
+        """The same through the reader's own thread: real start() / read_one() / read() with `sync` delivery, the stub
+        VideoGear handing out the frame.  ('ok', array, None) | ('raised', type, text) when the reader thread died."""
+        import time
+        rd = self.video_reader(option, value, bgr)
+        rd.deque = type(rd.deque)(maxlen=1)       # as constructed by the code
+        frames = [image]
+        rd.stream.read = lambda: frames.pop(0) if frames else None
+        died = []
+        saved = threading.excepthook
+        threading.excepthook = lambda a: died.append(('raised', a.exc_type.__name__,
+                                                      str(a.exc_value).strip().replace('\n', ' ')[:300]))
+        self.calls += 1
+        try:
+            rd.start()
+            t0 = time.time()
+            while not rd.frame_available and rd.thread.is_alive() and time.time() - t0 < timeout:
+                time.sleep(0.0005)
+            if rd.frame_available:
+                out = rd.read()
+                res = ('ok', out, None) if out is not None else ('raised', 'EndOfVideo', 'reader delivered no frame')
+            else:
+                rd.thread.join(1.0)
+                if rd.thread.is_alive():
+                    raise MachineryError(f'video reader thread neither delivered a frame nor ended ({option}={value})')
+                res = died[0] if died else ('raised', 'EndOfVideo', 'reader thread ended without a frame')
+            rd.stop()
+            if rd.sync_evt is not None:
+                rd.sync_evt.set()
+            rd.thread.join(2.0)
+            return res
+        finally:
+            threading.excepthook = saved
+
     def video_run(self, option, value, images, bgr=True):
         """Real VideoReader.thread_reader over the injected frames, one result per frame."""
         results, rest = [], list(images)
         while rest:
-            rd = self.video_reader(option, value, bgr)
+            try:
+                rd = self.video_reader(option, value, bgr)
+            except ValueError as e:           # the option value was refused
+                return results + [('raised', 'ValueError', str(e)[:300])] * len(rest)
             it = iter(rest)
             rd.read_one = lambda it=it: next(it, None)         # frame acquisition (vidgear, pacing) is not under test
             self.calls += 1
@@ -435,10 +483,28 @@ class Judge:
     # -- reporting -------------------------------------------------------------------------------------------------------
     def violation(self, what, witness, sig):
         self.viol_kinds[sig.get('kind')] += 1
-        if self.collect:
-            self.out.append(('violation', what, witness, sig))
-        else:
+        self.out.append(('violation', what, witness, sig))
+
+    def flush(self):
+        """Hand the witnesses to the report: the listed (pinned) witnesses first, then one per kind of violation, then
+        the rest - the report writes replay files only for the first few."""
+        pinned = {case_key(c) for c, _a, _i in PINNED}
+        first, lead, rest, kinds = [], [], [], set()
+        for o in self.out:
+            if o[0] != 'violation':
+                continue
+            k = (o[3].get('kind'), o[3].get('site'), o[3].get('one_side_equal'))
+            if case_key(o[2].get('case', {})) in pinned and o[2].get('step', 1) == 1:
+                first.append(o)
+                kinds.add(k)
+            elif k not in kinds:
+                kinds.add(k)
+                lead.append(o)
+            else:
+                rest.append(o)
+        for _t, what, witness, sig in first + lead + rest:
             self.rep.violation(what, witness, sig)
+        self.out = []
 
     def drift(self, what):
         self.drifts += 1
@@ -502,7 +568,8 @@ class Judge:
         planes = (0,)
         if fmt0 == 'GRAY' and any(x['act'] in PERMS or x['act'] == 'box' for x in xs):
             planes = range(real.gray_planes(w0, h0))      # every byte of the pixel id gets its own run
-        witness0 = {'site': 'util', 'case': c, 'xforms': ', '.join(texts), 'frame': f'{w0}x{h0} {fmt0} {"ro" if ro else "rw"}'}
+        witness0 = {'site': 'util', 'case': c, 'xforms': ', '.join(texts), 'idx': idx, 'ro': ro,
+                    'frame': f'{w0}x{h0} {fmt0} {"ro" if ro else "rw"}'}
         for plane in planes:
             src = real.blank(w0, h0, fmt0) if pure_size and w0 * h0 > 100 else real.source(w0, h0, fmt0, plane)
             # prefix runs: results[k] = real result of the first k transforms in ONE execute_xforms call
@@ -597,13 +664,22 @@ class Judge:
                                        {'kind': 'box_outside', 'site': 'util', 'act': act})
                     colour = box_colour(infmt, x['col'])
                     if colour is not None and inside.any():
+                        # inside the rectangle a pixel is either left alone or has the requested colour; the pixels
+                        # entirely within the rectangle are drawn
                         self.law_count['box_colour'] += 1
-                        if not (outarr[inside] == np.array(colour, dtype=np.uint8)).all():
+                        col = np.array(colour, dtype=np.uint8)
+                        is_col = (outarr == col).all(axis=-1)
+                        same = (outarr == inarr).all(axis=-1)
+                        i0, i1, j0, j1 = inner_rect_of(x, iw, ih)
+                        inner = np.zeros((ih, iw), dtype=bool)
+                        inner[i0:i1, j0:j1] = True
+                        wrong = (inside & ~is_col & ~same) | (inner & ~is_col)
+                        if wrong.any():
                             violated = True
-                            bad = outarr[inside][(outarr[inside] != np.array(colour, dtype=np.uint8)).any(axis=-1)][0]
-                            self.violation(f'{texts[k - 1]!r} on a {infmt} frame drew {tuple(int(v) for v in bad)}, the '
-                                           f'requested colour in {infmt} order is {colour}', wit,
-                                           {'kind': 'box_colour', 'site': 'util', 'act': act})
+                            rr, cc = np.argwhere(wrong)[0]
+                            self.violation(f'{texts[k - 1]!r} on a {infmt} frame drew {tuple(int(v) for v in outarr[rr, cc])}'
+                                           f' at (row {rr}, col {cc}), the requested colour in {infmt} order is {colour}',
+                                           wit, {'kind': 'box_colour', 'site': 'util', 'act': act})
             # ---- inverse pairs
             if k >= 2 and (xs[k - 2]['act'], act) in INVERSE_PAIRS and results[k - 2][0] == 'ok':
                 self.law_count['inverse_pair'] += 1
@@ -653,17 +729,43 @@ class Judge:
             variant = (start_idx + i) % 24
             text = render(x, variant).split(' ', 1)[1]
             mode = ('bgr', 'gray', 'rgb')[(start_idx + i) % 3]
-            groups.setdefault((x['act'], text, mode), []).append(v)
-        for (option, value, mode), vs in groups.items():
+            groups.setdefault((x['act'], text, mode), []).append((start_idx + i, v))
+        for (option, value, mode), ivs in groups.items():
             images = []
+            vs = [v for _i, v in ivs]
             for v in vs:
                 w, h = v['c']['w'], v['c']['h']
                 images.append(np.zeros((h, w), np.uint8) if mode == 'gray' else np.zeros((h, w, 3), np.uint8))
             results = real.video_run(option, value, images, bgr=(mode != 'rgb'))
-            for v, res in zip(vs, results):
-                self.judge_video(v, res, f'{option}={value}', mode)
+            for (i, v), res in zip(ivs, results):
+                self.judge_video(v, res, f'{option}={value}', mode, i)
 
-    def judge_video(self, vec, res, text, mode):
+    def cross_check_threaded(self, vecs, limit):
+        """A few video vectors again through the reader's own thread (start/read): same observation as the direct call."""
+        np, real = self.np, self.real
+        picked, seen = [], set()
+        for v in vecs:
+            x, w, h = v['c']['xs'][0], v['c']['w'], v['c']['h']
+            zero = any(i['w'] < 1 or i['h'] < 1 for i in v['asis'][0])
+            tag = (x['act'], x['asp'], zero, bool(v['ideal']), branch_of(x, w, h))
+            if tag not in seen and w * h <= 4_000_000:
+                seen.add(tag)
+                picked.append(v)
+        for v in picked[:limit]:
+            x, w, h = v['c']['xs'][0], v['c']['w'], v['c']['h']
+            value = render(x, 0).split(' ', 1)[1]
+            img = np.zeros((h, w, 3), np.uint8)
+            direct = real.video_run(x['act'], value, [img])[0]
+            threaded = real.video_run_threaded(x['act'], value, img)
+            self.rep.traces += 1
+            self.law_count['video_threaded_cross_check'] += 1
+            same = direct[0] == threaded[0] and (direct[0] != 'ok' or direct[1].shape == threaded[1].shape)
+            if not same:
+                raise MachineryError(f'video {x["act"]}={value} on {w}x{h}: direct thread_reader() call gave '
+                                     f'{direct[:1] + (getattr(direct[1], "shape", direct[1]),)}, the threaded reader '
+                                     f'{threaded[:1] + (getattr(threaded[1], "shape", threaded[1]),)}')
+
+    def judge_video(self, vec, res, text, mode, idx=None):
         c = vec['c']
         x, w, h = c['xs'][0], c['w'], c['h']
         self.rep.traces += 1
@@ -671,7 +773,7 @@ class Judge:
         self.branches['video_' + branch_of(x, w, h)] += 1
         ref_as = vec['asis'][0]
         ref_all = ref_as + [i for i in (vec['ideal'] or vec['asis'])[0] if i not in ref_as]
-        wit = {'site': 'video', 'case': c, 'option': text, 'frame': f'{w}x{h} {mode}',
+        wit = {'site': 'video', 'case': c, 'option': text, 'frame': f'{w}x{h} {mode}', 'idx': idx,
                'reference_size': [f'{i["w"]}x{i["h"]}' for i in ref_all]}
         self.law_count['no_fail'] += 1
         if res[0] != 'ok':
@@ -820,7 +922,29 @@ def tlc_all(ctx, rep, extra):
     return res, data['vectors']
 
 
-def run(ctx, only=None):
+PINNED = [   # (case, size the code as it stands computes, size of the intended design)
+    (case('util', 'BGR', 1000, 1, [xf('maxsize', 10, 10, True)]), (10, 0), (10, 1)),
+    (case('video', 'BGR', 1000, 1, [xf('maxsize', 10, 10, True)]), (10, 0), (10, 1)),
+    (case('util', 'BGR', 49, 49, [xf('maxsize', 1, 1, True)]), (0, 0), (1, 1)),
+]
+
+
+def pinned_witnesses(rep, vectors):
+    """The listed counterexamples must stay counterexamples of the as-is model (a finding cannot silently change)."""
+    by = {case_key(v['c']): v for v in vectors}
+    for c, asis, ideal in PINNED:
+        v = by.get(case_key(c))
+        if v is None:
+            raise MachineryError(f'pinned case {c} is not among the vectors')
+        got_as = {(i['w'], i['h']) for i in v['asis'][0]}
+        got_id = {(i['w'], i['h']) for i in (v['ideal'] or v['asis'])[0]}
+        if asis not in got_as or got_id != {ideal}:
+            raise MachineryError(f'pinned case {c}: TLC computes as-is {sorted(got_as)} / intended {sorted(got_id)}, '
+                                 f'expected {asis} / {ideal}')
+        rep.sample({'case': c, 'reference_as_is': sorted(got_as), 'reference_intended': sorted(got_id)}, 8)
+
+
+def run(ctx, only=None, only_idx=0, only_ro=None):
     common.use_repo()
     rep = Report(ctx)
     rep.rule = ('case = (site util|video, frame w x h x format, chain of 1..3 transforms with parameters); one TLC state '
@@ -844,6 +968,8 @@ def run(ctx, only=None):
     res, vectors = tlc_all(ctx, rep, extra)
     if only is not None:
         vectors = vectors[-len(only):]
+    if only is None:
+        pinned_witnesses(rep, vectors[-len(extra):])
     judge = Judge(rep, real)
     video = []
     nsmall = 0
@@ -853,6 +979,9 @@ def run(ctx, only=None):
         if c['site'] == 'video':
             video.append(v)
             continue
+        if only is not None:
+            judge.run_case(v, only_idx, ro=only_ro)
+            continue
         big = c['w'] * c['h'] > 250000
         if ctx.quick or big:
             judge.run_case(v, idx)
@@ -860,13 +989,16 @@ def run(ctx, only=None):
             judge.run_case(v, idx, ro=False)
             judge.run_case(v, idx, ro=True)
         nsmall += 1
-        if len(rep.samples) < 3 and len(c['xs']) == 3 and idx % 997 == 0:
+        if len(rep.samples) < 8 and len(c['xs']) == 3 and idx % 997 == 0 and idx > len(vectors) - len(extra):
             rep.sample({'case': c, 'xforms': ', '.join(render(x, idx + 7 * j) for j, x in enumerate(c['xs'])),
-                        'reference_after_each_step': [[(i['w'], i['h'], i['fmt']) for i in s] for s in v['asis']]})
-    judge.run_video(video)
-    if not ctx.quick:
+                        'reference_after_each_step': [[(i['w'], i['h'], i['fmt']) for i in s] for s in v['asis']]}, 8)
+    judge.run_video(video, start_idx=only_idx if only is not None else 0)
+    if only is None:
+        judge.cross_check_threaded(video, 12 if ctx.quick else 60)
+    if not ctx.quick and only is None:
         judge.run_video(video, start_idx=1)
         judge.run_video(video, start_idx=2)
+    judge.flush()
     rep.exhaustive = True
     rep.extra.update({
         'cases_enumerated_by_tlc': len(vectors) - len(extra), 'cases_supplied_by_harness': len(extra),
@@ -895,6 +1027,8 @@ def run(ctx, only=None):
 
 
 def replay(ctx):
+    """Re-executes the witness of a replay file (same case, same rendering variant) on the working tree."""
+    import shutil
     w = json.load(open(ctx.replay))
     wit = w.get('witness', {})
     print(json.dumps({k: wit.get(k) for k in ('site', 'xforms', 'option', 'frame', 'step', 'transform', 'input', 'output',
@@ -902,4 +1036,14 @@ def replay(ctx):
     c = wit.get('case')
     if not c:
         return run(ctx)
-    return run(ctx, only=[c])
+    tmp = tempfile.mkdtemp(prefix='c17replay_')      # keep the evidence and the replay files of the last full run
+    saved = (common.EVID, common.OUT)
+    common.EVID, common.OUT = tmp, tmp
+    try:
+        rc = run(ctx, only=[c], only_idx=wit.get('idx') or 0, only_ro=wit.get('ro'))
+        print(f'replay of {ctx.replay}: ' + ('the witness still falsifies the property' if rc else
+                                             'the witness no longer falsifies the property'))
+        return rc
+    finally:
+        shutil.rmtree(tmp, ignore_errors=True)
+        common.EVID, common.OUT = saved
